@@ -67,6 +67,10 @@ CHECKS = {
   "For every serializable value of the family: serialization is deterministic, reaches a fixed point in one step through the type and through toml::Table, Display equals to_string, and plain / pretty / toml_edit-pretty outputs decode equal. For every toml::Value table with 3-4 keys: every assignment of 7 entry kinds (scalar, array, array of tables, table, mixed array, empty table, empty array) x every insertion order x 2 nesting depths through three printers: valid TOML (specification model), equal decode, fixed point.",
   "This binary is the default (sorted map) configuration; the insertion-ordered configuration runs the same value-tree enumeration in the cfg engine (C18).",
   "exhaustive enumeration of value trees x insertion orders; fixed-point and validity oracles"),
+ "C06": ("model_checking", "tree", "5/C06",
+  "Complete enumeration of tree shapes with <= 4 (quick) / 5 (thorough) nodes over {leaf, array, inline table, table, array of tables}, keys from 10 adversarial keys and leaves from ~240 adversarial leaves (every pair of byte-class representatives, control characters, quote runs, i64 edges, float specials, four date-time kinds) with <= 1-2 positions deviating; each tree is built through five construction routes and as toml::Table; printed text must be valid (specification model), accepted by the parser, decode to the built tree, be a fixed point and print identically twice and across routes.",
+  "Key order is compared separately among value entries and among table entries (TOML syntax forces values first); NaNs by sign only. One known finding (empty array of tables prints nothing) recognised exactly.",
+  "exhaustive enumeration of small value trees x construction routes; validity, decode-equality and fixed-point oracles"),
 }
 
 NOT_YET = {}
